@@ -237,6 +237,7 @@ class Mod:
             raise TranslatorError(f'cannot parse {p}: {e}')
         guard_module(self.ast)
         self.bind = {}
+        self.tainted = set()
         count = {}
 
         def add(name, what):
@@ -261,15 +262,23 @@ class Mod:
             elif isinstance(n, ast.AsyncFunctionDef):
                 add(n.name, ('other', n))
             elif isinstance(n, ast.Assign):
+                self.taint_call_arguments(n.value)
                 for t in n.targets:
                     for s in ast.walk(t):
                         if isinstance(s, ast.Name):
                             add(s.id, ('assign', n.value) if t is s and len(n.targets) == 1 else ('other', n))
             elif isinstance(n, ast.AnnAssign) and isinstance(n.target, ast.Name):
+                if n.value is not None:
+                    self.taint_call_arguments(n.value)
                 add(n.target.id, ('assign', n.value) if n.value is not None else ('other', n))
             elif isinstance(n, ast.Expr) and isinstance(n.value, ast.Constant):
                 pass
             else:
+                # a module-level statement that is not a plain binding may do anything to the objects it mentions
+                # (setattr(TruthTable, ...), functools.update_wrapper(f, g), ...): they become unusable
+                for s in ast.walk(n):
+                    if isinstance(s, ast.Name) and isinstance(s.ctx, ast.Load):
+                        self.tainted.add(s.id)
                 # anything else at module level (if / for / try / with / del / calls ...) makes every name it
                 # mentions in a binding position ambiguous
                 for s in ast.walk(n):
@@ -286,6 +295,18 @@ class Mod:
         for name, k in count.items():
             if k > 1:
                 self.bind[name] = ('ambiguous', None)
+        for name in self.tainted:
+            if name in self.bind and self.bind[name][0] in ('func', 'class', 'from', 'assign'):
+                self.bind[name] = ('ambiguous', None)
+
+    def taint_call_arguments(self, value):
+        """x = f(TruthTable, ...) at module level: f may change what its arguments are"""
+        for c in ast.walk(value):
+            if isinstance(c, ast.Call):
+                for a in list(c.args) + [k.value for k in c.keywords]:
+                    for s in ast.walk(a):
+                        if isinstance(s, ast.Name):
+                            self.tainted.add(s.id)
 
 
 class Fn:
@@ -323,6 +344,9 @@ class ClassInfo:
         self.fields = None          # [(attribute, type)] once __init__ is translated
         for n in node.body:
             if isinstance(n, ast.FunctionDef):
+                if n.name.startswith('__') and n.name != '__init__':
+                    fail(n, f'class {node.name}: special method {n.name} (it may change what attribute access, '
+                            f'indexing or comparison of the object mean)')
                 self.methods[n.name] = None if n.name in self.methods else n
             elif isinstance(n, ast.Expr) and isinstance(n.value, ast.Constant):
                 pass
